@@ -11,7 +11,9 @@ What is proved (safety + the progress lemmas a liveness argument needs):
   * no panic: byte-level functions are total (C18, C12), classification is a total function, and no
     reachable state of M7 has a panicked task (`c06_no_panic`) — write faults included;
   * at most one response per call, and it is one of continue/fail/resolve (`c06_at_most_once`,
-    `c06_immediate_or_held`);
+    `c06_immediate_or_held`); over whole runs — any interleaving, crash points, write faults — the ids
+    answered are pairwise distinct and each is the id of a call that did arrive
+    (`c06_at_most_once_run`);
   * no deadlock on the plugin's own channels: the two sends made under the table lock never find
     their capacity-1 channel full (`c06_nonblocking_sends`);
   * progress: a live owner always has an RPC in flight, or an enabled internal step, or an armed
@@ -23,6 +25,7 @@ time passes) and requires every call to be answered; suite `e2e` does it at proc
 Known finding K4: with a READ fault on the restart path the owner hits `todo!()`.
 -/
 import Tramp.Proofs.SysPanic
+import Tramp.Proofs.SysOnce
 import Tramp.Props.Sys
 import Tramp.Props.C18
 import Tramp.Props.C12
@@ -94,6 +97,21 @@ theorem c06_at_most_once (c : Cfg) (s s' : SState) (a : SAct) (outs : List Out) 
     rw [houts]
     have := (count_id_one e.listeners he.ids.1 hmem r').1
     simpa [respAll] using this
+
+/-- Over EVERY run (any interleaving, any number of HTLCs and lifecycles, crash points, write
+    faults) no call is answered twice, and only calls that arrived are answered: the ids in the
+    response outputs of the whole history are pairwise distinct and below the call counter. -/
+theorem c06_at_most_once_run (c : Cfg) (acts : List SAct) (s : SState) (outs : List Out)
+    (hf : WriteFaultsOnly acts) (hr : srunO c .current SState.init acts = some (s, outs)) :
+    (respIds outs).Nodup ∧ ∀ x ∈ respIds outs, x < s.nextInv := by
+  have h0 := einv_reachable c [] SState.init rfl
+  have := once_run c acts SState.init s [] outs (sinv_init _) h0.1 h0.2 once_init hf hr
+  simp only [List.nil_append] at this
+  exact ⟨this.nodup, this.below⟩
+
+/-- non-vacuity: in the demo run extended by the delivery of the pay result, call 0 is answered (once) -/
+example : ∃ s outs, srunO demoCfg .current SState.init (demoActs ++ [.deliver .owner (.prov .pay)]) = some (s, outs) ∧
+    respIds outs = [0] := ⟨_, _, rfl, rfl⟩
 
 /-- the sends made while the table lock is held never block: the fail channel is empty whenever
     `fail()` is about to send, the ready channel is empty whenever `add_htlc` is about to send -/
